@@ -11,6 +11,8 @@ Case kinds (field 'op'):
   sc       ServiceCheck.__check__ driven directly on the virtual clock        (model: sc)
   sce2e    ServiceCheck behind Health.Check / Health.Watch, real client stub  (oracle only)
   unsub    the only watcher of a ServiceCheck leaves at a given instant        (oracle only)
+  churn    watchers of ServiceCheck-backed services join and leave at any loop iteration (last one leaves, next
+           one joins), check results change over time; rig direct / e2e       (model: poll, + oracle)
 Times are integer ticks of 1/8 s.  Status codes: True 1, False 0, None 2; responses: UNKNOWN 0,
 SERVING 1, NOT_SERVING 2, SERVICE_UNKNOWN 3; grpc-status NOT_FOUND 5."""
 import itertools
@@ -259,6 +261,74 @@ def gen_unsub(rng):
             'horizon': cancel_at + 6 * (ttl + tmo), 'armed_first': rng.random() < 0.7}
 
 
+def gen_churn(rng, rig):
+    """watchers of ServiceCheck-backed services join and leave at PRNG instants, including the same instant and
+    adjacent loop iterations (the last one leaves, the next one joins); check results change over time"""
+    nchecks = rng.choice([1, 1, 2, 2, 3])
+    checks = []
+    t_end = 0
+    for _ in range(nchecks):
+        if rng.random() < 0.2:
+            checks.append({'status': rng.choice([1, 0, 2])})
+        else:
+            ttl = rng.choice([4, 8, 24])
+            tmo = rng.choice([8, 16])
+            phases = [[0, rng.choice(RES)]]
+            t = 0
+            for _ in range(rng.choice([1, 2, 4])):
+                t += rng.choice([1, 5, ttl, 2 * ttl + 3, 40])
+                phases.append([t, rng.choice(RES)])
+            t_end = max(t_end, t)
+            checks.append({'ttl': ttl, 'tmo': tmo, 'dur': rng.choice([-1, -1, 0, 1, 3]), 'phases': phases})
+    cfg = [[1, list(range(nchecks))]]
+    if nchecks > 1 and rng.random() < 0.5:
+        cfg.append([2, [rng.randrange(nchecks)]])
+    names = [1, 1, 1, 0] + ([2] if len(cfg) > 1 else [])
+    cmds = []
+    alive = []
+    nw = 0
+    now = 0
+    gap = (lambda: rng.choice(['', '', 'i:1', 'i:1', 'i:2', 'i:3', 'q'])) if rig == 'direct' else \
+        (lambda: rng.choice(['', '', 'i:1', 'i:2', 'i:4', 'i:8', 'q']))
+
+    def add(c):
+        if c:
+            cmds.append(c)
+    for _ in range(rng.choice([3, 6, 10, 16])):
+        r = rng.random()
+        if r < 0.3 and nw < 8:
+            cmds.append('j:%d' % rng.choice(names))
+            alive.append(nw)
+            nw += 1
+            add(gap())
+        elif r < 0.65 and alive:
+            # hand-over: somebody (often the last one) leaves and, within 0..3 iterations, somebody joins
+            k = rng.choice(alive)
+            alive.remove(k)
+            cmds.append('l:%d' % k)
+            add(rng.choice(['', 'i:1', 'i:1', 'i:2', 'i:3'] if rig == 'direct' else ['', 'i:1', 'i:2', 'i:4', 'i:6', 'i:8']))
+            if rng.random() < 0.8 and nw < 8:
+                cmds.append('j:%d' % rng.choice(names))
+                alive.append(nw)
+                nw += 1
+                add(gap())
+        elif r < 0.75 and alive:
+            k = rng.choice(alive)
+            alive.remove(k)
+            cmds.append('l:%d' % k)
+            add(gap())
+        else:
+            dt = rng.choice([1, 3, 8, 24, 50])
+            now += dt
+            cmds.append('t:%d' % dt)
+    if not alive or rng.random() < 0.5:
+        cmds.append('j:%d' % rng.choice(names))
+        add(gap())
+    worst = max([c['ttl'] + c['tmo'] + 4 for c in checks if 'ttl' in c] or [8])
+    tail = max(0, t_end - now) + 3 * worst + 8
+    return {'op': 'churn', 'rig': rig, 'checks': checks, 'cfg': cfg, 'cmds': cmds, 'tail': tail}
+
+
 def gen_sce2e(rng):
     nchecks = rng.choice([1, 1, 2, 3])
     checks = []
@@ -480,6 +550,94 @@ def oracle_sc(res, case, impl):
                  {'kind': 'sc-notify'}, impl['notes'])
 
 
+def churn_watchers(case):
+    """[(name, left?)] per watcher, from the commands"""
+    ws = []
+    for c in case['cmds']:
+        p = c.split(':')
+        if p[0] == 'j':
+            ws.append([int(p[1]), False])
+        elif p[0] == 'l' and int(p[1]) < len(ws):
+            ws[int(p[1])][1] = True
+    return ws
+
+
+def churn_poll_lines(case):
+    """per ServiceCheck: the subscribe / unsubscribe / settle sequence of its watchers, for the model"""
+    reg = registry(case['cfg'])
+    lines = []
+    for i, spec in enumerate(case['checks']):
+        if 'status' in spec:
+            continue
+        ws, started, words = [], [], []
+        for c in case['cmds']:
+            p = c.split(':')
+            if p[0] == 'j':
+                ws.append(int(p[1]))
+                started.append(False)
+                if i in reg.get(int(p[1]), ()):
+                    words.append('j')
+                    started[-1] = True
+            elif p[0] == 'l' and int(p[1]) < len(ws) and started[int(p[1])]:
+                started[int(p[1])] = False
+                words.append('l')
+            elif p[0] in 'qt':
+                words.append('q')
+        words.append('q')
+        lines.append((i, 'poll ' + ' '.join(words)))
+    return lines
+
+
+def oracle_churn(res, case, out):
+    reg = registry(case['cfg'])
+    final = []
+    for spec in case['checks']:
+        if 'status' in spec:
+            final.append(spec['status'])
+        else:
+            final.append(value_after('ret' if spec['phases'][-1][1] != 'R' else 'raise', spec['phases'][-1][1]))
+    for k, ((name, gone), sent) in enumerate(zip(churn_watchers(case), out['sent'])):
+        if gone:
+            continue
+        if out['state_live'][k] != 'pending':
+            fail(res, case, 'live watcher %d is over: %s' % (k, out['state_live'][k]), {'kind': 'watch-died'}, out['ends'])
+            continue
+        if not sent:
+            fail(res, case, 'watcher %d received nothing' % k, {'kind': 'watch-no-first'}, out['sent'])
+            continue
+        cur = expect_watch_status(case['cfg'], final, name)
+        if sent[-1] != cur:
+            fail(res, case, 'missed update: watcher %d (joined while/after others left) last got %d; the check functions '
+                 'have returned results aggregating to %d for longer than check_ttl + check_timeout'
+                 % (k, sent[-1], cur), {'kind': 'watch-missed-update'}, {'sent': out['sent'], 'logs': out['logs']})
+    for k, e in enumerate(out['ends']):
+        if e.startswith('exc'):
+            fail(res, case, "Watch's cleanup raised %s (watcher %d)" % (e[4:], k),
+                 {'kind': 'watch-cleanup-error', 'exc': e[4:]}, out['ends'])
+        elif e == 'pending':
+            fail(res, case, 'watcher %d never finished after it was cancelled' % k, {'kind': 'unsubscribe-hang'}, out['ends'])
+    errs = [r for r in out['server_errors'] if r[2] not in (None, 'CancelledError')]
+    if errs:
+        fail(res, case, 'the server logged %r' % (errs[:2],), {'kind': 'watch-cleanup-error', 'exc': errs[0][2]}, errs)
+    if out['left_events'] or out['left_polls']:
+        fail(res, case, 'after all watchers left: %d events still subscribed, %d checks still polled'
+             % (out['left_events'], out['left_polls']), {'kind': 'unsubscribe-leak'}, None)
+    for m in out['max_active']:
+        if m is not None and m > 1:
+            fail(res, case, 'the check function ran concurrently with itself', {'kind': 'sc-concurrent'}, out['logs'])
+    # somebody subscribed for the whole tail => the function was polled during it
+    subscribed = set()
+    for (name, gone) in churn_watchers(case):
+        if not gone:
+            subscribed |= set(reg.get(name, ()))
+    for i, spec in enumerate(case['checks']):
+        if 'ttl' in spec and i in subscribed:
+            recent = [r for r in out['logs'][i] if r[0] >= out['now'] - (spec['ttl'] + spec['tmo'] + 4)]
+            if not recent:
+                fail(res, case, 'check %d has a subscriber but its function was not run during the last check_ttl + '
+                     'check_timeout' % i, {'kind': 'poll-dead'}, out['logs'][i][-3:])
+
+
 def oracle_sce2e(res, case, out):
     cvs = []
     for i, spec in enumerate(case['checks']):
@@ -586,6 +744,10 @@ def run_cases(ctx, res, cases):
     for i, c in enumerate(cases):
         if c['op'] == 'check':
             for ln in check_lines(c):
+                index.append(i)
+                lines.append(ln)
+        elif c['op'] == 'churn':
+            for _, ln in churn_poll_lines(c):
                 index.append(i)
                 lines.append(ln)
         else:
@@ -749,6 +911,26 @@ def run_one(res, c, m):
                  {'kind': 'unsubscribe-hang'}, out)
         if out['max_active'] > 1:
             fail(res, c, 'the check function ran concurrently with itself', {'kind': 'sc-concurrent'}, out)
+    elif op == 'churn':
+        out = I.impl_churn(c)
+        res.signatures.add(('churn', c['rig'], repr(c['checks'])[:300], tuple(c['cmds'])))
+        res.count('churn:%s' % c['rig'])
+        res.count('churn:watchers', len(out['sent']))
+        cm = c['cmds']
+        for a, b2, c3 in zip(cm, cm[1:] + [''], cm[2:] + ['', '']):
+            if a[0] == 'l' and (b2[:1] == 'j' or (b2[:1] == 'i' and c3[:1] == 'j')):
+                res.count('churn:leave-then-join-within-%s' % ('0' if b2[:1] == 'j' else b2[2:] + '-iterations'))
+        if m is not None:
+            sc_ids = [i for i, spec in enumerate(c['checks']) if 'status' not in spec]
+            for i, line in zip(sc_ids, m):
+                res.traces += 1
+                mm = [tuple(int(x) for x in sn.split(',')[:3]) for sn in line.split('|')]
+                ii = [tuple(sn[i]) for sn in out['snaps']]
+                errs = [sn.split(',')[4] for sn in line.split('|')]
+                if mm != ii or '1' in errs:
+                    differ(res, c, {'check': i, '(events, poll_task, live pollers) at idle points': mm},
+                           {'check': i, '(events, poll_task, live pollers) at idle points': ii})
+        oracle_churn(res, c, out)
     elif op == 'sce2e':
         out = I.impl_sc_e2e(c)
         res.signatures.add(('sce2e', repr(c['checks'])[:200], tuple(map(tuple, c['events']))))
@@ -807,6 +989,10 @@ def run(ctx):
         cases.append(gen_sce2e(rng))
     for _ in range(ctx.n(150, 3000)):
         cases.append(gen_unsub(rng))
+    for _ in range(ctx.n(600, 12000)):
+        cases.append(gen_churn(rng, 'direct'))
+    for _ in range(ctx.n(200, 4000)):
+        cases.append(gen_churn(rng, 'e2e'))
     run_cases(ctx, res, cases)
     res.exhaustive = False
     res.extra['exhaustive_parts'] = ['agg: all lists of length <= %d' % kmax, 'reset: all 1- and 2-event inputs']
